@@ -1,5 +1,6 @@
 """C19 -- a thread pool handles each client's Messages once, in order, one at a time
 (system/ThreadPool.cpp/.h; the real pool with harness-gated handlers against the extracted LTS of Conc/TPool.v)."""
+import os, re
 import vlib
 
 
@@ -69,6 +70,61 @@ def gen_unreg_race(rng):
     return "n=%d|%s" % (maxt, ";".join(ops))
 
 
+def gen_sched_case(rng):
+    """stage 2: several user threads, each with its own clients, run concurrently under the controlled scheduler"""
+    maxt = rng.choice([1, 1, 2, 2, 3])
+    nut = rng.choice([2, 2, 3, 3, 4])
+    progs, nextc = [], 0
+    for ut in range(nut):
+        mine = list(range(nextc, nextc + rng.choice([1, 1, 2]))); nextc += len(mine)
+        mine = [c for c in mine if c < 8]
+        ops, reg = [], set()
+        for c in mine:
+            if rng.random() < 0.85:
+                ops.append("r:%d" % c); reg.add(c)
+        for _ in range(rng.choice([2, 4, 6, 9])):
+            if not mine:
+                break
+            c = rng.choice(mine)
+            r = rng.random()
+            if r < 0.70:
+                ops.append("s:%d" % c)
+                if rng.random() < 0.3:
+                    ops.append("s:%d" % c)
+            elif r < 0.85:
+                ops.append(("u:%d" if c in reg else "r:%d") % c)
+                reg.symmetric_difference_update({c})
+            else:
+                ops.append(rng.choice(["r:%d", "u:%d", "s:%d"]) % c)
+        if ut == 0 and rng.random() < 0.12:
+            ops.insert(rng.randrange(len(ops) + 1), "x")
+        progs.append(["%d:%s" % (ut, o) for o in ops])
+    body, idx, live = [], [0] * nut, [t for t in range(nut) if progs[t]]
+    while live:                      # only the per-thread order matters; interleaving the text lets a shrinker drop ops of any thread
+        t = rng.choice(live)
+        body.append(progs[t][idx[t]]); idx[t] += 1
+        if idx[t] >= len(progs[t]):
+            live.remove(t)
+    seed = "-" if rng.random() < 0.08 else str(rng.randint(1, 10 ** 9))
+    return "sched,n=%d,bar=%d,seed=%s,sch=|%s" % (maxt, 1 if rng.random() < 0.7 else 0, seed, ";".join(body))
+
+
+SCHED_DIRECTED = [
+    "sched,n=1,bar=1,seed=%d,sch=|0:r:0;1:r:1;0:s:0;0:s:0;1:s:1;0:u:0;1:s:1",          # the unregister-vs-pending scenario, every interleaving the seed picks
+    "sched,n=1,bar=1,seed=%d,sch=|0:r:0;1:r:1;2:r:2;0:s:0;1:s:1;2:s:2;0:s:0;1:s:1;2:s:2",
+    "sched,n=2,bar=0,seed=%d,sch=|0:r:0;1:r:1;2:r:2;0:s:0;1:s:1;2:s:2;1:s:1;2:s:2;1:u:1;0:x",   # shutdown racing with submissions and an unregister
+    "sched,n=2,bar=1,seed=%d,sch=|0:r:0;0:s:0;0:u:0;0:r:0;0:s:0;1:r:1;1:s:1;1:s:1;1:u:1;1:r:1;1:s:1",
+    "sched,n=3,bar=1,seed=%d,sch=|0:r:0;1:r:1;0:s:0;1:s:1;0:s:0;1:s:1;0:s:0;1:s:1",
+]
+
+
+def thread_hooks_present():
+    try:
+        return "MUSCLE_VERIF_THREAD_START" in open(os.path.join(vlib.REPO, "system", "Thread.cpp")).read()
+    except OSError:
+        return False
+
+
 DIRECTED = [
     # (maxThreads, script)
     (1, "r:0;r:1;s:0;s:0;s:1;u:0;g:0;g:1;g:0"),                          # A deferred + B pending + A unregistering: the freed thread takes B, A must keep waiting
@@ -107,29 +163,124 @@ class CHECK(vlib.Check):
                 "RemoveFirst, the 'nothing to do' branch), ThreadFinishedProcessingClientMessages (flag reset, deferred->pending "
                 "promotion by SwapContents, thread back to _availableThreads, re-dispatch, notification of a waiting "
                 "UnregisterClient), UnregisterClient (first section / Wait / final section), Shutdown (flag, the two "
-                "SwapContents sections, ShutdownInternalThread per swapped-out thread, final section with its notifications), "
-                "IThreadPoolClient::SetThreadPool/SendMessageToThreadPool wrappers (_threadPool pointer), ThreadPoolThread's "
-                "batch loop (handler entry/return per Message with numLeft, _currentClient, _internalQueue), every MASSERT of the "
-                "file as a flag.  Tables keep muscle::Hashtable's insertion order.  Not modelled: out-of-memory and thread-start "
-                "failure branches, the internals of Thread (owner->thread Message queue, signalling; that is C11), Mutex and "
-                "WaitCondition (premises).")
+                "SwapContents sections per round, ShutdownInternalThread per swapped-out thread, final section with its "
+                "notifications), IThreadPoolClient::SetThreadPool/SendMessageToThreadPool wrappers (_threadPool pointer, incl. the "
+                "submission whose unsynchronised pointer test preceded Shutdown's final section), ThreadPoolThread's batch loop "
+                "(handler entry/return per Message with numLeft, _currentClient, _internalQueue), every MASSERT of the file as a "
+                "flag.  Tables keep muscle::Hashtable's insertion order.  Not modelled: out-of-memory and thread-start failure "
+                "branches, the internals of Thread (owner->thread Message queue, signalling; that is C11), Mutex and WaitCondition "
+                "(premises).")
     premises = ["every ThreadPool method that touches the tables holds _poolLock for its whole body, so one transition = one critical section (Mutex semantics are a premise; DESIGN.md 5.3)",
-                "a pool thread that was handed a batch does call the handler for each Message and then ThreadFinishedProcessingClientMessages, and ShutdownInternalThread() returns once the thread has finished its batch (Thread's own queue/signalling is property C11: shutdown_completes)",
-                "the owner of a client does not call SendMessageToThreadPool()/SetThreadPool() on it while a SetThreadPool() on that client is in progress (IThreadPoolClient::_threadPool is unsynchronised; documented requirement)",
-                "handlers return (liveness is proved in its safety form: an enabled transition exists and a measure decreases)",
+                "a pool thread that was handed a batch does call the handler for each Message and then ThreadFinishedProcessingClientMessages, and ShutdownInternalThread() returns once the thread has finished its batch (Thread's own queue/signalling is property C11: shutdown_completes); exercised on the real Threads by the scheduled runs of stage 2",
+                "the owner of a client does not call SendMessageToThreadPool()/SetThreadPool() on it while a SetThreadPool() on that client is in progress (IThreadPoolClient::_threadPool is unsynchronised; documented requirement): in the model those labels are not enabled then",
+                "handlers return (liveness is proved in its safety form: a transition that lowers a measure is enabled and nobody can disable it)",
+                "Shutdown() drops whatever is still queued and wakes blocked un-registrations: 'exactly once' and 'unregister waits' are stated for runs in which Shutdown()'s final section has not run (the prefix/at-most-once/order and seriality parts hold unconditionally)",
                 "memory allocation and thread creation do not fail; _threadIDCounter does not wrap"]
-    rule = ("each case = a pool size 1..4 (below and above the number of clients) and a script over up to 4 clients of register / "
-            "submit / let-the-running-handler-return / unregister / Shutdown; handlers are gated by the harness so the script "
-            "fixes the order of completions relative to submissions; after EVERY operation the result, the handler events "
+    rule = ("stage 1: each case = a pool size 1..4 (below and above the number of clients) and a script over up to 5 clients of "
+            "register / submit / let-the-running-handler-return / unregister / Shutdown; handlers are gated by the harness so the "
+            "script fixes the order of completions relative to submissions; after EVERY operation the result, the handler events "
             "(client, Message, pool thread id, numLeft) and the whole protected state (_shuttingDown, _threadIDCounter, "
             "_availableThreads, _activeThreads, _registeredClients with flags, _pendingMessages, _deferredMessages, "
             "_waitingForCompletion in table order, the clients' _threadPool, each running thread's _currentClient and "
             "_internalQueue) are compared with the extracted LTS, and finally every client's complete handled sequence.  "
-            "Non-trivial = at least two clients submit, some client submits at least twice and at least two handlers complete.")
+            "stage 2 (stream 'sched', when system/Thread.cpp carries the scheduler hooks): 2..4 user threads with their own "
+            "clients run concurrently with the pool's real Threads under the controlled scheduler (seeded random / non-preemptive "
+            "decisions at every _poolLock acquisition, handler, Wait(), spawn and join); the observed sequence of critical "
+            "sections and handler entries/returns must be accepted label by label by the extracted LTS (trace acceptance) and the "
+            "state dumped after every critical section must equal the model's.  In both stages the harness's own oracle "
+            "(independent of the model) checks order/at-most-once/nothing-lost, no overlapping handlers per client, the thread "
+            "limit, work conservation (stage 1), unregister-returns-only-after-all-handled, termination of Shutdown()/unregister "
+            "(watchdog / scheduler deadlock detector).  Non-trivial = at least two clients submit, some client submits at least "
+            "twice and at least two handlers complete (stage 1) / two user threads submit (stage 2).")
     quick_timeout = 1200
+
+    # ---- stage 2: the real pool under the controlled scheduler, its event trace replayed by the extracted LTS ----
+    def build(self):
+        impl, model = super().build()
+        self._model = model
+        self._sched = None
+        if thread_hooks_present():
+            self._sched = vlib.build_harness(name="tpoolsched", src="tpool_sched_h.cpp", san="asan", link_lib=True,
+                                             extra_srcs=[os.path.join(vlib.VERIF, "harness", "sched", "sched.cpp")])
+        return impl, model
+
+    def run_sched_harness(self, cases, timeout):
+        """-> {k: [lines]} ; a crash on case k is recorded and the run resumes with case k+1"""
+        import time
+        out, crashes, off, restarts = {}, [], 0, 0
+        t_end = time.time() + timeout
+        while off < len(cases) and restarts < 20 and time.time() < t_end:
+            rc, lines, err = vlib.run_lines(self._sched, "".join(c + "\n" for c in cases[off:]), max(5, t_end - time.time()))
+            for l in lines:
+                sp = l.split(" ", 1)
+                if sp[0].isdigit():
+                    out.setdefault(int(sp[0]) + off, []).append(sp[1] if len(sp) > 1 else "")
+            done = [k for k in range(off, len(cases)) if any(x.startswith("SCH ") for x in out.get(k, []))]
+            nxt = (max(done) + 1) if done else off
+            if nxt >= len(cases):
+                break
+            crashes.append({"k": nxt, "what": ("timeout/hang" if rc == 124 else vlib.san_summary(err)), "stderr": err[-2000:]})
+            off = nxt + 1
+            restarts += 1
+        return out, crashes
+
+    def extra_stage(self, ctx):
+        cases = [c for c in ctx["cases"] if c.startswith("sched,")]
+        cov = ctx.setdefault("extra_coverage", {})
+        if not cases:
+            cov["stage2_scheduler"] = ("not run: system/Thread.cpp of this tree has no MUSCLE_VERIF_HOOKS yield points yet "
+                                       "(patch by build-C11 pending); the stage runs automatically once they are there")
+            return
+        if not getattr(self, "_sched", None):
+            ctx["failures"].append({"kind": "build", "signature": "sched harness not built", "case": cases[0], "detail": ""})
+            return
+        out, crashes = self.run_sched_harness(cases, 1500 if ctx["tier"] == "quick" else 6000)
+        for c in crashes:
+            ctx["failures"].append({"kind": "crash", "signature": "crash: " + c["what"], "case": cases[c["k"]], "detail": c})
+        # the model replays the observed events
+        rin, n_ev, n_dec = [], 0, 0
+        for k, c in enumerate(cases):
+            evs = [l.split(" ", 2)[2].split(" ", 1)[0] for l in out.get(k, []) if l.startswith("EV ")]
+            n_ev += len(evs)
+            rin.append("%s|%s" % (re.search(r"n=\d+", c).group(0), ";".join(evs)))
+        rc, mlines, merr = vlib.run_lines(self._model, "".join(r + "\n" for r in rin), 900, env={"TPOOL_MODE": "replay"})
+        mod = {}
+        for l in mlines:
+            sp = l.split(" ", 1)
+            if sp[0].isdigit():
+                mod.setdefault(int(sp[0]), []).append(sp[1] if len(sp) > 1 else "")
+        crashed = {c["k"] for c in crashes}
+        for k, c in enumerate(cases):
+            h = out.get(k)
+            if h is None or k in crashed:
+                continue
+            sch = [l[4:] for l in h if l.startswith("SCH ")]
+            n_dec += len(sch[0].split(",")) if sch and sch[0] else 0
+            exact = re.sub(r"sch=[^|]*", "sch=" + (sch[0].replace(",", ".") if sch else ""), c, count=1)   # replays exactly
+            for l in h:
+                if l.startswith("ORACLE"):
+                    ctx["failures"].append({"kind": "oracle", "signature": l, "case": exact, "detail": {"oracle": l, "impl": h[-12:]}})
+            hh = [re.sub(r"^END \S+ ?", "END ", l).rstrip() for l in h if l.startswith("EV ") or l.startswith("END ")]
+            mm = [l.rstrip() for l in mod.get(k, []) if l.startswith("EV ") or l.startswith("END ")]
+            for l in mod.get(k, []):
+                if l.startswith("ORACLE"):
+                    ctx["failures"].append({"kind": "oracle", "signature": l, "case": exact, "detail": {"oracle": l}})
+            if hh != mm:
+                first = next((i for i in range(min(len(hh), len(mm))) if hh[i] != mm[i]), min(len(hh), len(mm)))
+                ctx["failures"].append({"kind": "correspondence", "signature": "model/impl disagree (scheduled run: trace not accepted or state differs)",
+                                        "case": exact, "detail": {"first_difference_at": first,
+                                                                   "impl": hh[max(0, first - 2):first + 3], "model": mm[max(0, first - 2):first + 3]}})
+        cov["stage2_scheduler"] = {"cases": len(cases), "pool_events_replayed_by_the_model": n_ev, "scheduler_decisions": n_dec,
+                                   "crashes": len(crashes)}
 
     def gen_cases(self, rng, tier):
         out = []
+        if getattr(self, "_sched", None) or (not hasattr(self, "_sched") and thread_hooks_present()):
+            for i in range(250 if tier == "quick" else 2500):
+                out.append(("sched", gen_sched_case(rng)))
+            for body in SCHED_DIRECTED:
+                for _ in range(8 if tier == "quick" else 60):
+                    out.append(("sched", body % rng.randint(1, 10 ** 9)))
         n = 900 if tier == "quick" else 9000
         for i in range(n):
             nclients = rng.choice([1, 2, 2, 3, 3, 4, 4])
@@ -158,18 +309,27 @@ class CHECK(vlib.Check):
 
     def nontrivial(self, case):
         body = case.split("|", 1)[1]
+        sched = case.startswith("sched,")
+        if sched:
+            body = ";".join(o.split(":", 1)[1] for o in body.split(";") if ":" in o)
         ops = [o for o in body.split(";") if o]
         subs = [o for o in ops if o.startswith("s:")]
         per = {}
         for o in subs:
             per[o] = per.get(o, 0) + 1
-        return len(per) >= 2 and max(per.values()) >= 2 and sum(1 for o in ops if o.startswith("g:")) >= 2
+        if len(per) < 2 or max(per.values()) < 2:
+            return False
+        return sched or sum(1 for o in ops if o.startswith("g:")) >= 2
 
     def distribution(self, sc):
         d = {}
         for s, c in sc:
             d["stream:" + s] = d.get("stream:" + s, 0) + 1
             head, body = c.split("|", 1)
+            if c.startswith("sched,"):
+                head = re.search(r"n=\d+", head).group(0)
+                d["sched-threads:%d" % len({o.split(":")[0] for o in body.split(";") if o})] = d.get("sched-threads:%d" % len({o.split(":")[0] for o in body.split(";") if o}), 0) + 1
+                body = ";".join(o.split(":", 1)[1] for o in body.split(";") if ":" in o)
             d["pool:" + head] = d.get("pool:" + head, 0) + 1
             ops = [o for o in body.split(";") if o]
             cl = {o.split(":")[1] for o in ops if ":" in o}
